@@ -19,6 +19,7 @@ EXPLANATION = (
     'only when its own status is FAILED; D4 the heap is re-established (heapify) before the handler returns whenever unheapified '
     'elements remain.  "Highest priority at the linearization point" and the heap arithmetic are NOT decided.')
 EXPLANATION += ' Added after the seeded-change rounds: ' + 'D3 also: every user operation (element assignment / construction, comparator call) inside the aggregator handler closure is inside a try block (violated on the pinned tree for the pop path and the heap maintenance: known findings); D4 also: the sift-down of reheap reads data[] only below mark.'
+EXPLANATION += ' Added in the third session (round-3 seeds and the findings they led to): ' + 'D2 also: an operation is not touched any more once its status has been published (the link to the next operation is read before).'
 ASSUMPTIONS = ['instantiations: concurrent_priority_queue<int>, <string>']
 ND = ['a successful try_pop returns a highest-priority element at its linearization point', 'heap arithmetic (heapify / reheap)']
 
